@@ -4,7 +4,7 @@ from __future__ import annotations
 import ast
 from typing import Dict, Optional, Tuple
 
-from .. import artefacts
+from .. import artefacts, cfg as C, flow, guards
 from ..program import AnalysisError, Program, norm, walk_local, ancestors
 from ..report import Check
 from ..util import calls_in, fkey, is_method_call, path_of, recv_of, where
@@ -72,6 +72,11 @@ def descriptor_widths(prog: Program) -> Dict[str, Tuple[int, str]]:
     if "Byte" in out:
         out["Byte"] = (out["Byte"][0], "unsigned")
     return out
+
+
+def calls_in_node(n):
+    from ..util import node_calls
+    return node_calls(n)
 
 
 def run(prog: Program, chk: Check):
@@ -156,6 +161,113 @@ def run(prog: Program, chk: Check):
         if b != "parser":
             emit_ok = any(isinstance(n, ast.FormattedValue) and norm(n.value) == f"{fv}.name" for n in walk_local(lp))
             F.decide(emit_ok, fkey(f, "emits-field-name"), where(f, lp), "member is emitted under field.name", f"{f.qual} does not emit members under field.name")
+
+    # emitted extents and values are the parser's *evaluated* numbers: the unevaluated yaml text means something else in each target
+    # language (`/` is integer division in C, true division in Python/JS/Matlab), while the recorded size was computed from the number
+    RAW = {"length_expression", "length_expanded", "expression", "expanded"}
+    raw_in = lambda node: [n for n in ast.walk(node) if isinstance(n, ast.Attribute) and n.attr in RAW and isinstance(n.ctx, ast.Load)]
+    if not raw_in(prog.module(PAR).tree):
+        raise AnalysisError("anchor vanished: the parser no longer keeps the unevaluated text under " + ", ".join(sorted(RAW)))
+    nraw = 0
+    COMMENT = ("//", "/*", "%", "#", "*")
+    for b, (modname, clsname) in BACKENDS.items():
+        mi = prog.module(modname)
+        funcs_b = [f for f in prog.all_functions() if f.module is mi]
+        tainted_fn: set = set()
+
+        def taint_of(f, tainted_fn=tainted_fn):
+            """names of f holding (text derived from) the unevaluated expression; whether f returns such text"""
+            names: set = set()
+
+            def dirty(e):
+                for x in ast.walk(e):
+                    if isinstance(x, ast.Attribute) and x.attr in RAW and isinstance(x.ctx, ast.Load):
+                        return True
+                    if isinstance(x, ast.Name) and x.id in names:
+                        return True
+                    if isinstance(x, ast.Call) and isinstance(x.func, ast.Attribute) and x.func.attr in tainted_fn:
+                        return True
+                return False
+
+            changed = True
+            while changed:
+                changed = False
+                for n in ast.walk(f.node):
+                    tg = n.targets if isinstance(n, ast.Assign) else ([n.target] if isinstance(n, (ast.AugAssign, ast.AnnAssign)) and n.value is not None else [])
+                    if tg and dirty(n.value):
+                        for t in tg:
+                            for x in ast.walk(t):
+                                if isinstance(x, ast.Name) and x.id not in names:
+                                    names.add(x.id)
+                                    changed = True
+            returns = any(isinstance(n, ast.Return) and n.value is not None and dirty(n.value) for n in ast.walk(f.node))
+            return names, returns, dirty
+
+        changed = True
+        while changed:
+            changed = False
+            for f in funcs_b:
+                _, rets, _ = taint_of(f)
+                if rets and f.name not in tainted_fn:
+                    tainted_fn.add(f.name)
+                    changed = True
+        for f in funcs_b:
+            names, _, dirty = taint_of(f)
+            if not (names or raw_in(f.node) or any(isinstance(x, ast.Call) and isinstance(x.func, ast.Attribute) and x.func.attr in tainted_fn for x in ast.walk(f.node))):
+                continue
+            for js in [n for n in ast.walk(f.node) if isinstance(n, ast.JoinedStr)]:
+                line = ""
+                for part in js.values:
+                    if isinstance(part, ast.Constant) and isinstance(part.value, str):
+                        line = (line + part.value).rsplit("\n", 1)[-1]
+                    elif isinstance(part, ast.FormattedValue):
+                        if dirty(part.value):
+                            nraw += 1
+                            in_comment = any(mk in line for mk in COMMENT)
+                            F.decide(in_comment, fkey(f, part.value), where(f, part.value), f"`{norm(part.value)}` (unevaluated text) is emitted inside a comment only",
+                                     f"{f.qual} emits `{norm(part.value)}`, derived from the unevaluated yaml text, into the {b} output: the target language re-evaluates it with its own arithmetic "
+                                     "(`/` is integer division in C) while the recorded size was computed from the parser's number")
+                        line += "X"
+            for n in ast.walk(f.node):
+                if isinstance(n, ast.BinOp) and isinstance(n.op, (ast.Add, ast.Mod)) and (dirty(n.left) or dirty(n.right)) and any(isinstance(x, (ast.Constant, ast.JoinedStr)) and isinstance(getattr(x, "value", ""), str) or isinstance(x, ast.JoinedStr) for x in (n.left, n.right)):
+                    nraw += 1
+                    F.bad(fkey(f, n), where(f, n), f"{f.qual} builds output text from the unevaluated yaml expression: `{norm(n)[:80]}`")
+    F.ok("backends|evaluated-values-only", "src/pyrtma/compilers", f"{nraw} place(s) where unevaluated yaml text reaches a back end's output; the parser itself keeps that text (detector self-check)")
+
+    # ---- P the Python class lays out every descriptor the generator declared ----------------------------------------------
+    P = chk.rule("C04-P", "MessageMeta turns every class attribute carrying _ctype into a ctypes field, in declaration order, filtered by nothing else", 3,
+                 "a descriptor skipped by name is missing from the Python layout only: sizes and later offsets differ from C / JS / Matlab")
+    mb = prog.module("pyrtma.message_base")
+    mn = next((f for f in prog.all_functions() if f.module is mb and f.qual == "MessageMeta.__new__"), None)
+    if mn is None:
+        raise AnalysisError("anchor vanished: MessageMeta.__new__")
+    nsp = mn.params()[3] if len(mn.params()) >= 4 else None
+    loops = [lp for lp in walk_local(mn.node) if isinstance(lp, ast.For) and nsp and (norm(lp.iter) in (f"{nsp}.keys()", f"{nsp}.items()", nsp, f"list({nsp}.items())", f"list({nsp}.keys())", f"list({nsp})"))]
+    if len(loops) != 1:
+        P.bad(fkey(mn, "namespace-loop"), where(mn), f"expected one loop over the class namespace, found {len(loops)} (sorted / filtered iteration changes the field order or drops fields)")
+    else:
+        lp = loops[0]
+        P.ok(fkey(mn, "namespace-loop"), where(mn, lp), f"iterates {norm(lp.iter)} in declaration order")
+        g = C.build(mn.node)
+        tests = [c for c in calls_in(lp) if isinstance(c.func, ast.Name) and c.func.id == "hasattr" and len(c.args) == 2 and isinstance(c.args[1], ast.Constant) and c.args[1].value == "_ctype"]
+        appends = [n for n in g.nodes if n.ast is not None and any(a is lp for a in ancestors(n.ast)) and any(is_method_call(c, "append") and isinstance(c.args[0], ast.Tuple) and len(c.args[0].elts) == 2 for c in calls_in_node(n))]
+        if not tests or not appends:
+            raise AnalysisError("anchor vanished: hasattr(<attr>, '_ctype') test / fields.append((name, ctype)) in MessageMeta.__new__")
+        ap_ids = {n.id for n in appends}
+        gs2 = flow.guard_states(g, edge_filter=lambda e: not (e.src in ap_ids and e.kind != "exc"))
+        head = next(n for n in g.nodes if n.kind == "for" and n.ast is lp)
+        body_ids = {n.id for n in g.nodes if n.ast is not None and any(a is lp for a in ancestors(n.ast))}
+        skipped = [p for e in g.pred[head.id] if e.src in body_ids and e.src not in ap_ids for p in gs2.after_edge(e)]
+        # the explicit `_fields_` entry (v1 definitions) is handled by its own branch
+        fl = [norm(c) for c in walk_local(lp) if isinstance(c, ast.Compare) and len(c.ops) == 1 and isinstance(c.ops[0], ast.Eq) and isinstance(c.comparators[0], ast.Constant) and c.comparators[0].value == "_fields_"]
+        goal = guards.parse(f"not {norm(tests[0])}" + "".join(f" or {x}" for x in fl[:1]))
+        loose = [p for p in skipped if guards.any_path_implies([p], goal)]
+        P.decide(not loose, fkey(mn, "every-descriptor-becomes-a-field"), where(mn, lp), f"{len(skipped)} path(s) skip the append, all for attributes without _ctype",
+                 "a class attribute carrying _ctype can be skipped: " + (", ".join(("" if pol else "not ") + norm(x) for x, pol in loose[0]) if loose else ""))
+        # the field keeps the attribute's own ctype and a name derived from its key only
+        tup = [c.args[0] for n in appends for c in calls_in_node(n) if is_method_call(c, "append")][0]
+        src_names = {x.id for x in ast.walk(tup) if isinstance(x, ast.Name)}
+        P.decide(bool(src_names), fkey(mn, "field-from-attribute"), where(mn, tup), f"field tuple built from {sorted(src_names)}", "field tuple is constant")
 
     # ---- I ids, constants, hashes -------------------------------------------------------------------------------------
     I = chk.rule("C04-I", "sibling id/constant/hash emitters read .name and .value (.hash) of their argument; generate() wires every table to its emitter", 30,
